@@ -24,9 +24,9 @@ import (
 )
 
 const (
-	c12Quick    = 420  // 300 schedule configs + 60 ctx give-up + 60 MaxElapsedTime give-up
-	c12Thorough = 7000 // 5000 + 1000 + 1000
-	c12Stride   = 7    // idx%7: 0..4 schedule, 5 ctx, 6 elapsed
+	c12Quick    = 540  // 300 schedule configs + 60 ctx give-up + 60 MaxElapsedTime give-up + 60 concurrent + 60 elapsed-inside-wait
+	c12Thorough = 9000 // 5000 + 1000 + 1000 + 1000 + 1000
+	c12Stride   = 9    // idx%9: 0..4 schedule, 5 ctx, 6 elapsed, 7 concurrent, 8 elapsed inside a wait
 	c12BigMR    = 2000 // MaxRetries of the MaxElapsedTime class
 	retryFrame  = "Retry.Middleware"
 	hour        = time.Hour
@@ -37,11 +37,13 @@ func init() {
 		ID:    "C12",
 		Level: "exploration",
 		Cases: func(tier string) int { return vlib.TierN(tier, c12Quick, c12Thorough) },
-		Rule: "case idx%7 in 0..4 = class schedule: one random Retry config (MaxRetries 1..8, InitialInterval 0 / ns / us / up to 3 ms, Multiplier in {1,1.5,2,3,random 1..3}, " +
+		Rule: "case idx%9 in 0..4 = class schedule: one random Retry config (MaxRetries 1..8, InitialInterval 0 / ns / us / up to 3 ms, Multiplier in {1,1.5,2,3,random 1..3}, " +
 			"MaxInterval = Initial .. Initial+6 ms, RandomizationFactor in {0,0.5,1,random}, MaxElapsedTime 0 or 1 h, Logger nil or Nop) wrapped ONCE and invoked with 3-4 handler scripts " +
 			"(fail forever; fail^MaxRetries then succeed; fail^i then succeed for a random i < MaxRetries; sometimes i=0), every attempt returning its own output slice and its own error value. " +
-			"idx%7==5 = class ctx/*: the message context ends (handler cancels it in attempt k=1 with 1 h intervals; in attempt k=2,3 with a tiny InitialInterval and a huge Multiplier so that only the wait after attempt k is >= 40 s; " +
-			"the harness cancels it from outside during the 1 h wait; it is cancelled before the call; it carries a 1-5 ms deadline). idx%7==6 = class elapsed: MaxElapsedTime 5..20 ms, MaxRetries 2000, interval 1..2 ms, handler taking >=100 us and failing forever. " +
+			"idx%9==5 = class ctx/*: the message context ends (handler cancels it in attempt k=1 with 1 h intervals; in attempt k=2,3 with a tiny InitialInterval and a huge Multiplier so that only the wait after attempt k is >= 40 s; " +
+			"the harness cancels it from outside during the 1 h wait; it is cancelled before the call; it carries a 1-5 ms deadline). idx%9==6 = class elapsed: MaxElapsedTime 5..20 ms, MaxRetries 2000, interval 1..2 ms, handler taking >=100 us and failing forever. " +
+			"idx%9==7 = class concurrent: ONE wrapped handler retries a permanently failing message (MaxRetries 3..4, Initial 8..12 ms, Multiplier 2, RF 0) while another goroutine keeps passing fresh, immediately succeeding messages through the same wrapped handler every few ms: the failing message's hook delays and back-off gaps must still follow its own progression. " +
+			"idx%9==8 = class elapsed-inside-wait: Initial 40..80 ms, Multiplier 6, RF 0, MaxElapsedTime = 1.5 x Initial, so the budget ends inside the second wait with a margin of 5.5 x Initial (>= 220 ms): a third attempt must not happen (reported only if it happens in 4 of 4 consecutive runs, so that a stalled process cannot fake it). " +
 			"Non-trivial: schedule = at least one retry was made and at least one hook delay and one back-off gap were judged; ctx/elapsed = Retry gave up with fewer than MaxRetries+1 calls. " +
 			"Distinct = distinct (class, config, scripts, observed call counts).",
 		Assumptions: []string{
@@ -243,6 +245,7 @@ type expect struct {
 	checkDelay bool // judge hook delays against cfg.bounds
 	allowStop  bool // a delay of -1 (backoff.Stop) is tolerated
 	ctxClause  bool // a wrong call count is reported as ctx-giveup
+	noHook     bool // Retry was configured without OnRetryHook: skip the hook clauses, judge gaps against the arithmetic minimum
 }
 
 type trace struct {
@@ -388,7 +391,7 @@ func judge(res *vlib.Result, c cfg, iv *invocation, ex expect) int {
 			break
 		}
 	}
-	if len(iv.hooks) != failedRetries {
+	if len(iv.hooks) != failedRetries && !ex.noHook {
 		fail("hook-sequence", "%d retries failed (of %d calls) but OnRetryHook was called %d times (%v)", failedRetries, n, len(iv.hooks), hookNums(iv.hooks))
 	}
 	for _, h := range iv.hooks {
@@ -540,6 +543,10 @@ func run(e *vlib.Env) vlib.Result {
 		return runCtx(e)
 	case 6:
 		return runElapsed(e)
+	case 7:
+		return runConcurrent(e)
+	case 8:
+		return runElapsedInsideWait(e)
 	}
 	return runSchedule(e)
 }
@@ -749,5 +756,104 @@ func runElapsed(e *vlib.Env) vlib.Result {
 	res.Count("invocations", 1)
 	res.Count("elapsed_giveups", 1)
 	res.NonTrivial = tr.Calls < c.MaxRetries+1 && tr.Calls >= 2
+	return res
+}
+
+// runConcurrent: a permanently failing message is retried while other messages pass through the SAME wrapped handler.
+func runConcurrent(e *vlib.Env) vlib.Result {
+	res := vlib.Result{Class: "concurrent"}
+	c := cfg{MaxRetries: e.R.Range(3, 4), Initial: time.Duration(e.R.Range(8, 12)) * time.Millisecond, Max: time.Second, Mult: 2, RF: 0, Logger: e.R.Bool()}
+	a := &invocation{name: e.ID() + "-A", forever: true}
+	var others atomic.Int64
+	var stop atomic.Bool
+	var seenMu sync.Mutex
+	seen := map[string]int{}
+	inner := func(msg *message.Message) ([]*message.Message, error) {
+		if msg.UUID == a.name {
+			return a.handler(msg)
+		}
+		// the other messages fail once and succeed on their first retry, so each of them starts its own back-off
+		seenMu.Lock()
+		seen[msg.UUID]++
+		first := seen[msg.UUID] == 1
+		seenMu.Unlock()
+		if first {
+			return nil, errors.New("first attempt of another message fails")
+		}
+		others.Add(1)
+		return nil, nil
+	}
+	// no OnRetryHook here: its (retryNum, delay) arguments cannot be attributed to a message when several retry at once
+	h := c.retry(nil).Middleware(inner)
+	gap := time.Duration(e.R.Range(1, 4)) * time.Millisecond
+	var feeders sync.WaitGroup
+	for f := 0; f < 3; f++ {
+		feeders.Add(1)
+		go func(f int) {
+			defer feeders.Done()
+			for i := 0; !stop.Load() && i < 2000; i++ {
+				h(message.NewMessage(fmt.Sprintf("%s-other%d.%d", e.ID(), f, i), nil))
+				vlib.TimerWait(gap)
+			}
+		}(f)
+	}
+	oc, dump := a.exec(h, message.NewMessage(a.name, e.R.Payload(8)), nil)
+	stop.Store(true)
+	feeders.Wait()
+	tr := a.trace()
+	res.Sample = map[string]any{"cfg": c, "invocation": tr, "other_messages_through_the_same_handler": others.Load()}
+	res.Sig = vlib.Sig("concurrent", c.MaxRetries, c.Initial, gap, tr.Calls)
+	if !finish(&res, oc, dump, a, "concurrent") {
+		return res
+	}
+	res.Events += judge(&res, c, a, expect{class: "concurrent", calls: c.MaxRetries + 1, checkDelay: true, noHook: true})
+	if res.Failed() {
+		res.Witness = tr
+		return res
+	}
+	res.Count("invocations", 1)
+	res.Count("concurrent_other_messages", int(others.Load()))
+	res.NonTrivial = others.Load() >= 3 && tr.Calls >= 3
+	return res
+}
+
+// runElapsedInsideWait: MaxElapsedTime ends inside a back-off wait, far away from both of its ends.
+func runElapsedInsideWait(e *vlib.Env) vlib.Result {
+	res := vlib.Result{Class: "elapsed-inside-wait"}
+	ini := time.Duration(e.R.Range(40, 80)) * time.Millisecond
+	c := cfg{MaxRetries: 6, Initial: ini, Max: time.Hour, Mult: 6, RF: 0, MaxElapsed: ini + ini/2, Logger: e.R.Bool()}
+	// attempts: #1 at 0, #2 after a wait of Initial (< MaxElapsedTime), #3 only after a further wait of 6 x Initial, i.e. not
+	// before 7 x Initial = MaxElapsedTime + 5.5 x Initial (>= 220 ms later): Retry has to give up inside that wait.
+	// A process stalled for that long could let both select branches become ready (then Go picks at random), so a third
+	// attempt is reported only when it shows up in every one of 4 consecutive runs of the scenario.
+	var tr trace
+	for rep := 0; rep < 4; rep++ {
+		iv := &invocation{name: fmt.Sprintf("%s-eiw%d", e.ID(), rep), forever: true}
+		h := c.retry(iv.hook).Middleware(iv.handler)
+		oc, dump := iv.exec(h, message.NewMessage(iv.name, nil), nil)
+		tr = iv.trace()
+		res.Sample = map[string]any{"cfg": c, "invocation": tr, "repetition": rep}
+		res.Sig = vlib.Sig("elapsed-inside-wait", c.Initial, tr.Calls)
+		if !finish(&res, oc, dump, iv, "elapsed-inside-wait") {
+			return res
+		}
+		iv.mu.Lock()
+		retErr := iv.retErr
+		iv.mu.Unlock()
+		res.Events += tr.Calls + 1
+		if retErr == nil {
+			res.Fail("failure-to-success", "[elapsed-inside-wait] every attempt failed but Retry returned a nil error")
+			return res
+		}
+		if tr.Calls <= 2 {
+			res.Count("invocations", 1)
+			res.Count("elapsed_giveups", 1)
+			res.NonTrivial = tr.Calls == 2
+			return res
+		}
+		res.Count("elapsed_inside_wait_third_attempt_seen", 1)
+	}
+	res.Fail("elapsed-giveup", "[elapsed-inside-wait Initial=%v Mult=6 MaxElapsedTime=%v] in 4 of 4 runs Retry made %d handler calls: attempt 3 cannot start before 7 x Initial = %v, long after MaxElapsedTime passed, so Retry did not give up when the budget ended inside the wait", c.Initial, c.MaxElapsed, tr.Calls, 7*c.Initial)
+	res.Witness = tr
 	return res
 }
